@@ -18,6 +18,7 @@ type ExecVariant struct {
 	Seed     uint64  `json:"seed,omitempty"`
 	Sched    string  `json:"sched,omitempty"`    // controlled worker schedule policy ("" = free running)
 	FailEncode int   `json:"fail_encode,omitempty"` // the k-th element Encode call of every deterministic commit fails once (the commit is then retried)
+	FreeOrder bool   `json:"free_order,omitempty"` // the order-relaxed commit iterates its write set in Go's own (randomised) map order: the job-order hook is off
 	Elem     int     `json:"elem,omitempty"`     // element-granular worker yields: park at every Elem-th callback inside a worker job (0 = job granularity only)
 }
 
@@ -48,6 +49,11 @@ func ledgerDigest(l *SimLedger) string {
 func execForDigest(tr *Trace, variant ExecVariant, stats *Stats) ([]commitPoint, []string, *Violation) {
 	w := NewWorld(tr.Config, stats)
 	r := NewRng(variant.Seed).Sub("variant")
+	if variant.FreeOrder {
+		orderHookOff = true
+		defer func() { orderHookOff = false }()
+		stats.Inc("det.free-map-order-executions")
+	}
 	var points []commitPoint
 	for i := range tr.Steps {
 		st := tr.Steps[i]
@@ -215,7 +221,13 @@ func init() {
 		// pre-advance allocators so that slab indexes cross byte boundaries
 		ar := r.Sub("alloc")
 		pre := []uint64{0, 0, 250, 65530, 1<<32 - 3}[ar.Intn(5)]
-		gen := NewGen(r.Sub("workload"), w, determinismProfile(r.Sub("profile"), cfg))
+		dprof := determinismProfile(r.Sub("profile"), cfg)
+		if r.Sub("temp").Chance(0.3) {
+			// temporary-owner slabs pending next to owned stores and deletions (they take part in the commits'
+			// bookkeeping although they are never written)
+			dprof.Owners = append(dprof.Owners, 0)
+		}
+		gen := NewGen(r.Sub("workload"), w, dprof)
 		if pre > 0 {
 			tr.Steps = append(tr.Steps, Step{Op: "prealloc", N: int(pre)})
 			w.execGuarded(&tr.Steps[0])
@@ -244,11 +256,12 @@ func init() {
 		variants := []ExecVariant{
 			{Workers: []int{1, 2, 3, 8, 64}[vr.Intn(5)], Seed: vr.U64()},
 			{GCProb: 0.15, Seed: vr.U64()},
-			{Seed: vr.U64()}, // plain repetition: new map iteration orders
+			{Seed: vr.U64(), FreeOrder: true}, // plain repetition with the library's own map iteration orders everywhere
+			{Workers: []int{1, 2, 8}[vr.Intn(3)], Seed: vr.U64(), FreeOrder: true},
 			{Workers: []int{1, 1, 2, 8}[vr.Intn(4)], FailEncode: vr.Range(1, 40), Seed: vr.U64()},
 		}
 		if tier == "thorough" {
-			variants = append(variants, ExecVariant{Workers: []int{1, 2, 3, 8, 64}[vr.Intn(5)], GCProb: 0.3, Seed: vr.U64()}, ExecVariant{Seed: vr.U64()})
+			variants = append(variants, ExecVariant{Workers: []int{1, 2, 3, 8, 64}[vr.Intn(5)], GCProb: 0.3, Seed: vr.U64()}, ExecVariant{Seed: vr.U64(), FreeOrder: true})
 		}
 		if scheduledCommit != nil {
 			variants = append(variants, ExecVariant{Sched: []string{"random", "last", "first", "rr"}[vr.Intn(4)], Workers: []int{2, 3, 8}[vr.Intn(3)], Seed: vr.U64(), Elem: []int{0, 1, 2, 5}[vr.Intn(4)]})
